@@ -71,6 +71,20 @@ func newSched(data []byte, chunks []int, eofWithData, seekable bool) io.Reader {
 	return &s
 }
 
+// newSchedAt is newSched over pre bytes of unrelated data followed by data, with the
+// current position just after the unrelated bytes.
+func newSchedAt(data []byte, chunks []int, eofWithData, seekable bool, pre int) io.Reader {
+	if pre == 0 {
+		return newSched(data, chunks, eofWithData, seekable)
+	}
+	all := append(bytes.Repeat([]byte("%!junk before the font\n"), pre/23+1)[:pre:pre], data...)
+	s := schedReader{data: all, off: pre, chunks: chunks, eofWithData: eofWithData}
+	if seekable {
+		return &seekSched{s}
+	}
+	return &s
+}
+
 // schedCmd <schedules.ndjson> <seed> <tier>: every input of the corpus under
 // every schedule, compared with the all-at-once run.
 func schedCmd(args []string) error {
@@ -100,6 +114,7 @@ func schedCmd(args []string) error {
 		chunks []int
 		ewd    bool
 		seek   bool
+		pre    int // bytes of unrelated data before the current position of the source
 	}
 	jobs := make(chan job, 256)
 	var wg sync.WaitGroup
@@ -108,7 +123,7 @@ func schedCmd(args []string) error {
 		go func() {
 			defer wg.Done()
 			for j := range jobs {
-				res := corpus.Run(j.in.Entry, newSched(j.in.Data, j.chunks, j.ewd, j.seek))
+				res := corpus.Run(j.in.Entry, newSchedAt(j.in.Data, j.chunks, j.ewd, j.seek, j.pre))
 				mu.Lock()
 				sum.Vectors++
 				sum.PerOp[j.in.Entry+"/"+j.family]++
@@ -139,11 +154,16 @@ func schedCmd(args []string) error {
 		}()
 	}
 	inputs := corpus.All(seed)
-	for _, in := range inputs {
+	nAccepted := len(inputs)
+	inputs = append(inputs, corpus.Erroneous(seed)...)
+	for ii, in := range inputs {
 		base := corpus.Run(in.Entry, bytes.NewReader(in.Data))
-		if base.Panic != "" || base.Err != "" {
+		if base.Panic != "" || (base.Err != "" && ii < nAccepted) {
 			close(jobs)
 			return fmt.Errorf("corpus input %s is not accepted all-at-once: %s%s", in.Name, base.Err, base.Panic)
+		}
+		if ii >= nAccepted {
+			sum.PerOpOK["erroneous-inputs"]++
 		}
 		if len(sum.Samples) < 4 {
 			sum.Samples = append(sum.Samples, fmt.Sprintf("%s via %s, %d bytes", in.Name, in.Entry, len(in.Data)))
@@ -156,16 +176,22 @@ func schedCmd(args []string) error {
 					step = 7
 				}
 				for k := 0; k <= len(in.Data); k += step {
-					jobs <- job{in, base, "two-chunk split", []int{max(k, 1), len(in.Data) + 1}, ewd, seek}
+					jobs <- job{in, base, "two-chunk split", []int{max(k, 1), len(in.Data) + 1}, ewd, seek, 0}
 				}
 				for _, k := range []int{510, 511, 512, 513, 514, 1023, 1024, 1025} {
 					if k < len(in.Data) {
-						jobs <- job{in, base, "two-chunk split", []int{k, len(in.Data) + 1}, ewd, seek}
+						jobs <- job{in, base, "two-chunk split", []int{k, len(in.Data) + 1}, ewd, seek, 0}
 					}
 				}
-				jobs <- job{in, base, "one-byte reads", []int{1}, ewd, seek}
+				jobs <- job{in, base, "one-byte reads", []int{1}, ewd, seek, 0}
+				// a source handed over at a non-zero position (a font embedded in a container
+				// after the caller has read a header): seekable or not, reading starts there
+				for _, pre := range []int{1, 700} {
+					jobs <- job{in, base, fmt.Sprintf("source positioned at offset %d", pre), []int{len(in.Data) + pre + 1}, ewd, seek, pre}
+					jobs <- job{in, base, fmt.Sprintf("source positioned at offset %d", pre), []int{3, 509, 64}, ewd, seek, pre}
+				}
 				for _, c := range scheds {
-					jobs <- job{in, base, "schedule from ScanBuf.tla", c, ewd, seek}
+					jobs <- job{in, base, "schedule from ScanBuf.tla", c, ewd, seek, 0}
 				}
 			}
 		}
